@@ -66,7 +66,8 @@ Judged(g) == g.in_ok /\ Elems(g.in_kinds) \subseteq DOMAIN CpVariants
 
 ExpBytes(r) ==
     IF Judged(r.got) THEN [read_ok |-> TRUE, out_n |-> r.got.n, first_diff |-> -1, announced |-> r.got.n, out_cfkit_ok |-> TRUE,
-                           out_duke_ok |-> r.got.in_duke_ok, in_cells |-> r.got.in_cells]
+                           out_duke_ok |-> r.got.in_duke_ok]
+         @@ (IF r.got.has_x THEN [size |-> LenOf(r.got.x), cells |-> WV(Prescribed(r.got.x))] ELSE <<>>)
     ELSE <<>>
 
 AcceptBytes(r) ==
